@@ -24,6 +24,16 @@
 //!   @ fmtint <shape> <base> <plain|prec|access:<names>>   the full text of `Display` of an i64 tensor
 //!                                                 (or of `index_by(names)` of it): this one is also
 //!                                                 compared with the Lean model of `format_view`
+//!   @ length <n> <seed>                           `Tensor<f64,1>::euclidean_length` of an n-vector, computed on
+//!                                                 several copies whose buffers are allocated after a
+//!                                                 varying number of small allocations (different
+//!                                                 alignments): `bits=<first> again=<first differing or same>`
+//!   @ qr <rows> <cols> <seed>                     QR factors of a tall matrix, likewise twice
+//!   @ crosslist <k>                               k WengertLists created on each of two fresh threads
+//!                                                 and on this one, moved here; operations across every
+//!                                                 pair of different lists must be refused:
+//!                                                 `same=<ok count> other_same_thread=<refused>/<tried>
+//!                                                 cross_thread=<refused>/<tried>`
 //!   @ messages <seed>                             the TEXT of panic messages and of `Display`ed error
 //!                                                 values of invalid calls (several unknown / repeated
 //!                                                 names, bad shapes, records of two different
@@ -488,6 +498,97 @@ fn fmtint(shape: &[(&'static str, usize)], base: i64, mode: &str) -> String {
     })
 }
 
+/// small allocations that shift where the next buffers land (kept alive by the caller)
+fn shift_heap(k: usize) -> Vec<Box<[u8]>> {
+    (0..k).map(|i| vec![i as u8; 8 + 16 * (i % 3)].into_boxed_slice()).collect()
+}
+
+fn again_of(all: &[String]) -> String {
+    let first = &all[0];
+    let other = all.iter().find(|x| *x != first).unwrap_or(first);
+    format!("bits={} again={}", first, other)
+}
+
+fn length(n: usize, seed: u64) -> String {
+    let mut rng = Rng::new(seed);
+    let data = values(&mut rng, n);
+    let mut keep = vec![];
+    let mut all = vec![];
+    for k in 0..8 {
+        keep.push(shift_heap(k));
+        // a fresh buffer for the same numbers, at whatever alignment the allocator gives it now
+        let mut copy: Vec<f64> = Vec::with_capacity(n + (k % 3));
+        copy.extend_from_slice(&data);
+        let t = Tensor::from([("x", n)], copy);
+        all.push(hex(t.euclidean_length()));
+        keep.push(vec![vec![0u8; 24].into_boxed_slice()]);
+    }
+    again_of(&all)
+}
+
+fn qr(rows: usize, cols: usize, seed: u64) -> String {
+    let mut rng = Rng::new(seed);
+    let data = values(&mut rng, rows * cols);
+    let mut keep = vec![];
+    let mut all = vec![];
+    for k in 0..6 {
+        keep.push(shift_heap(k));
+        let m = Matrix::from_flat_row_major((rows, cols), data.clone());
+        let d = linear_algebra::qr_decomposition::<f64>(&m);
+        all.push(d.map(|d| format!("{}|{}", show_matrix_bits(&d.q), show_matrix_bits(&d.r))).unwrap_or_else(|| "none".into()));
+        let t = Tensor::from([("r", rows), ("c", cols)], data.clone());
+        let dt = linear_algebra::qr_decomposition_tensor::<f64, _, _>(&t);
+        all.push(dt.map(|d| format!("{}|{}", hexes(d.q.iter()), hexes(d.r.iter()))).unwrap_or_else(|| "none".into()));
+    }
+    // matrix and tensor forms are compared among themselves
+    let m: Vec<String> = all.iter().step_by(2).cloned().collect();
+    let t: Vec<String> = all.iter().skip(1).step_by(2).cloned().collect();
+    format!("{} tensor-{}", again_of(&m), again_of(&t))
+}
+
+fn crosslist(k: usize) -> String {
+    let make = move || -> Vec<WengertList<f64>> { (0..k).map(|_| WengertList::new()).collect() };
+    // two fresh threads: on each of them these are the first k lists the thread creates
+    let a = std::thread::spawn(make).join().unwrap();
+    let b = std::thread::spawn(make).join().unwrap();
+    let here = make();
+    let refused = |x: &WengertList<f64>, y: &WengertList<f64>| -> bool {
+        let (p, q) = (Record::variable(1.5, x), Record::variable(2.5, y));
+        let r1 = catch(|| (&p + &q).number).is_err();
+        let r2 = catch(|| (&p * &q).number).is_err();
+        let r3 = catch(|| (&q - &p).number).is_err();
+        r1 && r2 && r3
+    };
+    let groups = [&a, &b, &here];
+    let (mut same_ok, mut st_ref, mut st_all, mut ct_ref, mut ct_all) = (0, 0, 0, 0, 0);
+    for (gi, g) in groups.iter().enumerate() {
+        for (i, x) in g.iter().enumerate() {
+            if !refused(x, x) {
+                same_ok += 1;
+            }
+            for (j, y) in g.iter().enumerate() {
+                if i != j {
+                    st_all += 1;
+                    if refused(x, y) {
+                        st_ref += 1;
+                    }
+                }
+            }
+            for (hi, h) in groups.iter().enumerate() {
+                if hi != gi {
+                    for y in h.iter() {
+                        ct_all += 1;
+                        if refused(x, y) {
+                            ct_ref += 1;
+                        }
+                    }
+                }
+            }
+        }
+    }
+    format!("same={} other_same_thread={}/{} cross_thread={}/{}", same_ok, st_ref, st_all, ct_ref, ct_all)
+}
+
 /// the message a call panics with (`-` if it returns)
 fn panic_message<R>(f: impl FnOnce() -> R) -> String {
     match std::panic::catch_unwind(std::panic::AssertUnwindSafe(f)) {
@@ -612,6 +713,9 @@ impl Runner {
             "display" => display(num(2) as u64),
             "format" => format_family(toks[2], num(3) as u64),
             "fmtint" => fmtint(&parse_shape(toks[2]), toks[3].parse().expect("base"), toks[4]),
+            "length" => length(num(2), num(3) as u64),
+            "qr" => qr(num(2), num(3), num(4) as u64),
+            "crosslist" => crosslist(num(2)),
             "messages" => messages(num(2) as u64),
             "names" => names(toks[2], num(3) as u64),
             _ => "bad-op".into(),
@@ -671,6 +775,25 @@ pub fn gen(g: &mut Gen) {
         let seed = g.rng.next() % 1_000_000;
         g.count("messages");
         g.op(format!("@ messages {}", seed));
+    }
+    for n in [8usize, 9, 10, 11, 12, 13, 16, 17, 23, 31, 32, 33, 47, 64, 70] {
+        for _ in 0..(reps / 2).max(1) {
+            let seed = g.rng.next() % 1_000_000;
+            g.count("length");
+            g.op(format!("@ length {} {}", n, seed));
+        }
+    }
+    for rows in [8usize, 9, 10, 11, 12] {
+        for _ in 0..(reps / 2).max(1) {
+            let cols = g.rng.range(2, 4);
+            let seed = g.rng.next() % 1_000_000;
+            g.count("qr");
+            g.op(format!("@ qr {} {} {}", rows, cols, seed));
+        }
+    }
+    for k in [1usize, 2, 3, 5] {
+        g.count("crosslist");
+        g.op(format!("@ crosslist {}", k));
     }
     for family in ["tensor0", "tensor1", "tensor2", "tensor3", "tensor4", "tensor5", "tensor6", "views", "matrices",
         "decompositions", "errors", "records"] {
